@@ -35,9 +35,35 @@ def check_counter(chk: Check, repo: Repo) -> None:
     chk.unit(fi)
     cfg = CFG(fi.node)
     am = AbsMachine(cfg, ExcTable(repo), lambda c, e: None)
-    paths = Explorer(cfg, repo, am.step).run(cfg.entry, [], {"self.sequence_number": SymInt("s", 0, 256)})
-    ok = len(paths) == 1 and paths[0].end == cfg.exit and paths[0].env.get("self.sequence_number") == SymInt("s", 1, 256)
-    chk.ob("counter-successor", fi.site(), ok, f"_increase_sequence_number maps s to {paths[0].env.get('self.sequence_number') if paths else None!r}; reference (s+1) mod 256", key="counter-successor")
+    # the flag that says "a frame of the current connection carried this counter value": the attribute tested here
+    flags = sorted({ast.unparse(n.test) for n in walk_local(fi.node) if isinstance(n, ast.If) and isinstance(n.test, ast.Attribute) and ast.unparse(n.test.value) == "self"})
+    flag = flags[0] if len(flags) == 1 else None
+    chk.ob("counter-advances-only-for-a-frame-of-this-connection", fi.site(), flag is not None, f"_increase_sequence_number is conditional on {flags}" if flag else "_increase_sequence_number advances the counter unconditionally: a send_cemi() still pending while the tunnel was re-established (its `finally` runs after _tunnel_established reset the counter) turns the new connection's 0 into 1 — the first frame of the new connection carries counter 1", key="counter-flag")
+    for used in ((False, True) if flag else (True,)):
+        env0 = {"self.sequence_number": SymInt("s", 0, 256)}
+        if flag:
+            env0[flag] = used
+        paths = Explorer(cfg, repo, am.step).run(cfg.entry, [], env0)
+        want = SymInt("s", 1 if used else 0, 256)
+        ok = len(paths) == 1 and paths[0].end == cfg.exit and paths[0].env.get("self.sequence_number") == want and (flag is None or paths[0].env.get(flag) is False)
+        chk.ob("counter-successor", fi.site(), ok, f"_increase_sequence_number with used={used} maps s to {paths[0].env.get('self.sequence_number') if paths else None!r} (flag afterwards {paths[0].env.get(flag) if paths and flag else '-'}); reference {want!r}, flag cleared", key=f"counter-successor|{used}")
+    if flag:
+        fattr = flag.split(".", 1)[1]
+        tr_ = repo.func(T, "_Tunnel._tunnelling_request")
+        chk.unit(tr_)
+        cfg_t = CFG(tr_.node)
+        sets = [n.id for n in cfg_t.nodes if n.kind == "stmt" and isinstance(n.ast, ast.Assign) and ast.unparse(n.ast.targets[0]) == flag and isinstance(n.ast.value, ast.Constant) and n.ast.value.value is True]
+        hand = [n.id for n in cfg_t.nodes if n.ast is not None and n.kind == "stmt" and any(call_name(c) == "self._send_tunnelling_request" for c in calls(n.ast))]
+        okf = len(sets) == 1 and len(hand) == 1 and cfg_t.dominates(sets[0], hand[0])
+        chk.ob("counter-advances-only-for-a-frame-of-this-connection", tr_.site(), okf, "_tunnelling_request marks the counter as used before it hands the frame (built with the current counter) to the transport", key="counter-flag|set")
+        for w in attr_writes(repo, fattr):
+            q = w.func.qualname
+            v = repo.fold(w.stmt.value, w.func.module, w.func.cls) if hasattr(w.stmt, "value") else NOFOLD
+            okw = (q in ("_Tunnel.__init__", "_Tunnel._tunnel_established", "_Tunnel._increase_sequence_number") and v is False) or (q == "_Tunnel._tunnelling_request" and v is True)
+            chk.ob("counter-advances-only-for-a-frame-of-this-connection", w.func.site(w.stmt), okw, f"`{canon(w.stmt)}` in {q} (allowed: False in __init__/_tunnel_established/_increase_sequence_number, True in _tunnelling_request)", key=f"counter-flag|writer|{q}|{v}")
+        te0 = repo.func(T, "_Tunnel._tunnel_established")
+        okr = any(isinstance(n, ast.Assign) and ast.unparse(n.targets[0]) == flag and isinstance(n.value, ast.Constant) and n.value.value is False and n in te0.node.body for n in walk_local(te0.node))
+        chk.ob("counter-advances-only-for-a-frame-of-this-connection", te0.site(), okr, "_tunnel_established clears the flag together with the counter: what a send of the old connection still does in its `finally` cannot touch the new counter", key="counter-flag|reset")
     tunnel = repo.cls(T, "_Tunnel")
     fam = set(repo.subclasses(tunnel))
     ws = [w for w in attr_writes(repo, "sequence_number") if w.func.cls in fam and w.receiver == "self"]
